@@ -234,7 +234,7 @@ func rulePipelineOrdering(e *Engine, r *Reporter) {
 	}
 	r.Check(!missWake, fname(ex)+" | every exit of the membership branch wakes the next member", e.instrPos(waitAll), "wake chain cannot be interrupted", "a member can leave the teardown without waking its successor: the chain stalls and the pipeline never terminates")
 
-	r.Rule("one-shot-latches", "the ready / quiescence / wake latches are closed behind a one-shot guard (mutex + state flip, or atomic Swap), and SignalReady decrements the count Join/Register started with", 4)
+	r.Rule("one-shot-latches", "the ready / quiescence / wake latches are closed behind a one-shot guard (mutex + state flip, or atomic Swap), and SignalReady decrements the count Join/Register started with", 3)
 	for _, spec := range []struct{ pkg, fn, guard string }{
 		{workerPkg, "Membership.Wake", "Swap"},
 		{trackPkg, "StatusPool.dec", "Swap"},
